@@ -208,11 +208,43 @@ pub fn render_file(fi: usize, f: &TFile) -> RenderedFile {
         if layout == 4 {
             let (o, c) = h.block.unwrap();
             tag_line += 1;
-            for (v, tag, end) in [(&mut new, &tag_new, &end_new), (&mut old, &tag_old, &end_old)] {
+            // what follows the tags inside the comment: 0 its closer, 1 an untouched remark line, 2 the comment grew
+            // by a line that now carries the closer, 3 its last remark line went away (edits of comment text
+            // behind both tags: they touch neither tag nor content)
+            let mut tail_kind = b.inside_at % 4;
+            if tail_kind == 3 && shifted {
+                k1_excluded += 1;
+                tail_kind = 1;
+            }
+            for (is_new, v, tag, end) in [(true, &mut new, &tag_new, &end_new), (false, &mut old, &tag_old, &end_old)] {
                 v.push(o.to_string());
                 v.push(format!("   {mb}{tag}"));
                 v.push(format!("   {end}"));
-                v.push(format!(" {c}"));
+                match tail_kind {
+                    0 => v.push(format!(" {c}")),
+                    1 => {
+                        v.push("   a remark behind the tags".to_string());
+                        v.push(format!(" {c}"));
+                    }
+                    2 => {
+                        if is_new {
+                            v.push("   a remark behind the tags".to_string());
+                            v.push(format!("   one more remark {c}"));
+                        } else {
+                            v.push(format!("   a remark behind the tags {c}"));
+                        }
+                    }
+                    _ => {
+                        v.push("   a remark behind the tags".to_string());
+                        if !is_new {
+                            v.push("   a remark that went away".to_string());
+                        }
+                        v.push(format!(" {c}"));
+                    }
+                }
+            }
+            if tail_kind >= 2 {
+                shifted = true;
             }
         } else if layout == 2 {
             // everything on one line; content is the single first line (or empty)
@@ -746,7 +778,7 @@ pub fn check_no_selection(c: &NoSelection, probe: &Probe) -> Verdict {
 
 pub fn run(run: &mut Run) {
     run.enumerate("no-selection", no_selection_cases(), Some("every non-empty combination of {deletion, binary change, mode change, pure rename} entries x {staged -U0, HEAD -U3}"), check_no_selection);
-    run.rule = "enumerated no-selection: diffs made only of deletions / binary changes / mode changes / pure renames (every combination) next to an untouched violating file: nothing is validated, `list` prints `{}`. random: 1..3 files (js, sh, rs, py, c) x 2..7 uniquely named non-nested blocks (own-line line comments, own-line block comments, everything on one line, a start tag spread over three lines with the edited attribute on the middle one, both tags inside one multi-line block comment, or nested in an untouched outer block whose start tag shares the comment) separated by 5 padding lines, each with 0..2 rules (keep-sorted, keep-unique, line-pattern, line-count, check-lua echo/nil; violating or not by chance) and a *set* of edit classes: inside (replace / insert / pure deletion / blanking of a content line / removal of trailing blanks only), tag-only (substitute or insert a character of an attribute value, append an attribute, change the last attribute's value, delete an attribute, delete a second `>` right after the tag — at the line's tail when the tag ends its line), end-tag-only (text after </block>, whitespace in </ block >), plus edits of padding lines (outside) and untouched blocks; a 600-byte attribute in one tag of seven; multi-byte text before the tag and inside it (an attribute in front of the edited one) in 25%; real `git diff -U0..10`, in a third of the cases with a deleted file and an emptied file in front of the others; optional path arguments. Oracle: (a) `list` in diff mode = exactly the inside/tag-only blocks with is_content_modified exactly for inside; (b) diff-mode diagnostics = full-scan diagnostics restricted to the selected blocks' extents, exit status accordingly; (c) with path arguments = full scan of those files + diff-mode result of the others. enumerated sweep: every byte position of the start tag, the comment text before and after it, the content, the whole end-tag comment and the code after it in 3 one-line block templates (ASCII, multi-byte before the tag, indented) x {substitute, insert, delete}. Non-trivial (random) = a violating untouched block, a violating selected block and a tag-only block; (sweep) = a region boundary or a position where byte and character columns differ.".into();
+    run.rule = "enumerated no-selection: diffs made only of deletions / binary changes / mode changes / pure renames (every combination) next to an untouched violating file: nothing is validated, `list` prints `{}`. random: 1..3 files (js, sh, rs, py, c) x 2..7 uniquely named non-nested blocks (own-line line comments, own-line block comments, everything on one line, a start tag spread over three lines with the edited attribute on the middle one, both tags inside one multi-line block comment (whose text behind the tags is in half of the cases edited too: the comment grows by a line carrying its closer, or loses its last remark line), or nested in an untouched outer block whose start tag shares the comment) separated by 5 padding lines, each with 0..2 rules (keep-sorted, keep-unique, line-pattern, line-count, check-lua echo/nil; violating or not by chance) and a *set* of edit classes: inside (replace / insert / pure deletion / blanking of a content line / removal of trailing blanks only), tag-only (substitute or insert a character of an attribute value, append an attribute, change the last attribute's value, delete an attribute, delete a second `>` right after the tag — at the line's tail when the tag ends its line), end-tag-only (text after </block>, whitespace in </ block >), plus edits of padding lines (outside) and untouched blocks; a 600-byte attribute in one tag of seven; multi-byte text before the tag and inside it (an attribute in front of the edited one) in 25%; real `git diff -U0..10`, in a third of the cases with a deleted file and an emptied file in front of the others; optional path arguments. Oracle: (a) `list` in diff mode = exactly the inside/tag-only blocks with is_content_modified exactly for inside; (b) diff-mode diagnostics = full-scan diagnostics restricted to the selected blocks' extents, exit status accordingly; (c) with path arguments = full scan of those files + diff-mode result of the others. enumerated sweep: every byte position of the start tag, the comment text before and after it, the content, the whole end-tag comment and the code after it in 3 one-line block templates (ASCII, multi-byte before the tag, indented) x {substitute, insert, delete}. Non-trivial (random) = a violating untouched block, a violating selected block and a tag-only block; (sweep) = a region boundary or a position where byte and character columns differ.".into();
     run.assumptions = vec![
         "pure line deletions are only generated where no earlier net line shift exists in the file (K1 excluded by construction, counted)".into(),
         "the sweep edits the OLD line only (the parsed NEW line is always the intact template); a deletion directly adjoining the start tag's `<` or `>` is unspecified and not judged".into(),
